@@ -5,13 +5,13 @@
 # SEED_DEMO_FLAGS (e.g. --features serde-json) and SEED_DEMO_ENV (e.g. RUST_BIGDECIMAL_DEFAULT_PRECISION=1) apply to the demo runs only.
 set -u
 P=$1; V=$2
-SRC=/tmp/out-$P
-DST=/verif/seeded/$P-$V
+SRC=${SEED_SRC:-/tmp/out-$P}
+DST=/verif/seeded/$P-${3:-$V}
 mkdir -p $DST
 cp $SRC/$V.diff $DST/patch.diff || exit 1
 cp $SRC/demo_$V.rs $DST/demo.rs || exit 1
 [ -f $SRC/REPORT.md ] && cp $SRC/REPORT.md $DST/agent_report.md
-WT=/tmp/verify-$P-$V
+WT=/tmp/verify-$P-${3:-$V}
 rm -rf $WT; git -C /repo worktree prune; git -C /repo worktree add -q --detach $WT HEAD || exit 1
 export CARGO_TARGET_DIR=/tmp/verify-target   # shared: one cold build only
 cd $WT
@@ -30,6 +30,6 @@ fi
 cd /; git -C /repo worktree remove --force $WT
 head=$(git -C /repo rev-parse --short HEAD)
 cat > $DST/verify.json <<J
-{"property": "$P", "variant": "$V", "repo_head": "$head", "patch_applies": $applies, "repo_suite_with_patch": "$suite", "demo_with_patch": "$demo_with", "demo_without_patch": "$demo_without", "demo_flags": "${SEED_DEMO_FLAGS:-}", "demo_env": "${SEED_DEMO_ENV:-}"}
+{"property": "$P", "variant": "${3:-$V}", "repo_head": "$head", "patch_applies": $applies, "repo_suite_with_patch": "$suite", "demo_with_patch": "$demo_with", "demo_without_patch": "$demo_without", "demo_flags": "${SEED_DEMO_FLAGS:-}", "demo_env": "${SEED_DEMO_ENV:-}"}
 J
 cat $DST/verify.json
